@@ -24,6 +24,18 @@ for l in open(os.path.join(ROOT, "properties.jsonl")):
                       "shape), an interaction of two edits in different functions that each look harmless, a boundary that only "
                       "one specific value hits, state left over from an earlier operation.")
     t.append("YOUR TASK: produce %d DIFFERENT, realistic changes to the library source (each a small patch a careless or well-meaning developer could plausibly make: an off-by-one, a swapped operand or index, a dropped or reordered statement, a wrong comparison, a \"simplification\" or \"optimisation\" that is subtly wrong, two sites that each look fine alone) such that each change\n (1) still compiles,\n (2) still passes the library's existing test suite (build it: `cmake -G Ninja -S %s -B %s/_b -DCMAKE_BUILD_TYPE=RelWithDebInfo -DRKCOMMON_TASKING_SYSTEM=TBB && cmake --build %s/_b -j8 && ctest --test-dir %s/_b -j8`; all tests must pass with your change),\n (3) BREAKS the property above, and\n (4) needs something specific to manifest — a particular input value or boundary, a multi-step sequence of operations, an unusual type or configuration, a particular interleaving — rather than failing on the first ordinary use.%s" % (n, wt, wt, wt, wt, extra_kind))
+    if rnd >= 3:
+        S = json.load(open(os.path.join(ROOT, "tools", "seed_summaries.json")))
+        tried = [v.split(" Needs:")[0] for k, v in sorted(S.items()) if k.startswith(pid + "-")]
+        t.append("ALREADY TRIED by others (do NOT repeat these or close variants of them; pick different functions, different "
+                 "mechanisms, different trigger conditions):\n" + "\n".join(" - " + x for x in tried))
+        t.append("Kinds of change that are especially wanted now: (a) two or three edits in different functions/files that each "
+                 "look harmless and only break the property together; (b) state left over from an earlier operation (a stale "
+                 "cache/flag/size, a moved-from or reused object, a second call on the same object); (c) a failure or exception "
+                 "at a particular point (an allocation that fails, a throwing copy constructor or user callback, an I/O error) "
+                 "after which the object is left inconsistent; (d) an unusual but legal instantiation or configuration (another "
+                 "element type, another backend, a preprocessor switch such as RKCOMMON_NO_SIMD, a const or rvalue overload); "
+                 "(e) a boundary that exactly one value hits.")
     if pid in BACKENDS:
         t.append("The library has four tasking backends selected by a compile definition (RKCOMMON_TASKING_TBB with -ltbb, RKCOMMON_TASKING_OMP with -fopenmp, RKCOMMON_TASKING_INTERNAL which additionally needs rkcommon/tasking/detail/TaskSys.cpp and rkcommon/tasking/detail/enkiTS/TaskScheduler.cpp, or none of them = serial Debug backend); a change may target any of them, and your demo may compile the needed rkcommon .cpp files directly with the backend definition it needs (the test suite run in (2) stays on TBB).")
     tim = ""
